@@ -20,6 +20,7 @@ import ast
 import linecache
 import os
 import random
+import re
 import sys
 import warnings
 from concurrent.futures import ThreadPoolExecutor
@@ -378,9 +379,6 @@ def _cfg(name: str, seed: Optional[int] = None) -> Optional[dict[str, str]]:
     """The cfg with run-dependent constants filled in: EmitRes (which residue class of body hashes is
     emitted for replay) from the seed, and -- for experiments with proposed repairs applied to a copy
     of the repository (VERIF_REPO) -- Fixed from VERIF_C20_FIXED=boolop,exact,ell."""
-    import os
-    import re
-
     text = (core.SPEC / "mc" / name).read_text()
     orig = text
     fixed = [x for x in os.environ.get("VERIF_C20_FIXED", "").split(",") if x]
@@ -465,37 +463,50 @@ def run(check: core.Check) -> None:
     ]
     cfgs = ["TypeEval.quick1.cfg", "TypeEval.quick2.cfg"] if quick else [
         "TypeEval.thorough1.cfg", "TypeEval.thorough2.cfg", "TypeEval.thorough3.cfg"]
-    workers = max(4, core.NCPU // len(cfgs))
+    workers = max(4, (core.NCPU - 4) // len(cfgs))
 
-    def model_check(cfg: str) -> core.TLCResult:
+    SENS = (("TypeEval.strict1.cfg", "EvalFollowsSpecStrict"), ("TypeEval.strict2.cfg", "OverApproximatesStrict"),
+            ("TypeEval.sens.cfg", "EvalFollowsSpec"))
+    num = 60 if quick else 1500  # behaviours; TLC evaluates EmitDone on every successor it generates
+
+    def tlc_job(cfg: str) -> core.TLCResult:
         if cfg == "TypeEval.cov.cfg":  # vacuity control: the generator alone, with -coverage
-            return core.run_tlc("TypeEval", cfg, coverage=True, workers=4, timeout=3000)
+            return core.run_tlc("TypeEval", cfg, coverage=True, workers=2, timeout=3000)
+        if cfg in [c for c, _ in SENS]:
+            return core.run_tlc("TypeEval", cfg, workers=2, timeout=900, extra_files=_cfg(cfg))
+        if cfg == "TypeEval.sim.cfg":
+            return core.run_tlc("TypeEvalEmit", cfg, workers=1 if quick else 3, simulate=f"num={num}", depth=16,
+                                seed=check.seed + 20, timeout=2400, extra_files=_cfg(cfg))
         return core.run_tlc("TypeEvalEmit", cfg, workers=workers, timeout=3000, extra_files=_cfg(cfg, check.seed), heap="10g")
 
     # TLC's -coverage cost model expands every operator per call path and exhausts the heap on the
     # mutually recursive interpreters; action coverage is therefore taken from a run of the generator
     # without the invariants, and the invariants' antecedent (stage = "done") is exercised once per
     # emitted case.
-    with ThreadPoolExecutor(len(cfgs) + 1) as ex:
-        results = list(ex.map(model_check, cfgs + ["TypeEval.cov.cfg"]))
+    jobs = cfgs + ["TypeEval.cov.cfg"] + [c for c, _ in SENS] + ["TypeEval.sim.cfg"]
+    with ThreadPoolExecutor(len(jobs)) as ex:
+        by_cfg = dict(zip(jobs, ex.map(tlc_job, jobs)))
+    results = [by_cfg[c] for c in cfgs] + [by_cfg["TypeEval.cov.cfg"]]
     cov = core.require_ok(results.pop(), "TypeEval generator coverage")
     core.require_coverage(cov, ACTIONS, "TypeEval.cov.cfg")
     check.add_tlc("coverage:TypeEval.cov.cfg", cov)
     cases: list[dict] = []
+    sampled = False
     for cfg, res in zip(cfgs, results):
         core.require_ok(res, "TypeEval exhaustive " + cfg)
         emitted = core.emitted_json(res)
         if not emitted:
             raise core.MachineryError(f"no cases emitted by {cfg} (invariants vacuous)")
-        check.add_tlc("exhaustive:" + cfg, res, done_states=len(emitted))
+        mod_ = int(re.search(r"EmitMod = (\d+)", (core.SPEC / "mc" / cfg).read_text()).group(1))
+        sampled = sampled or mod_ > 1
+        check.add_tlc("exhaustive:" + cfg, res, emitted_cases=len(emitted), emitted_body_fraction=f"1/{mod_}")
         cases += emitted
     uniq = {core.canon(c): c for c in cases}
     cases = list(uniq.values())
     check.cov["model_cases"] = len(cases)
     # sensitivity: the deviations are real on the model, and a plausible bug is caught by the invariant
-    for cfg, inv in (("TypeEval.strict1.cfg", "EvalFollowsSpecStrict"), ("TypeEval.strict2.cfg", "OverApproximatesStrict"),
-                     ("TypeEval.sens.cfg", "EvalFollowsSpec")):
-        r = core.run_tlc("TypeEval", cfg, workers=4, timeout=900, extra_files=_cfg(cfg))
+    for cfg, inv in SENS:
+        r = by_cfg[cfg]
         if r.violated != inv and not os.environ.get("VERIF_C20_FIXED"):
             raise core.MachineryError(f"sensitivity self-test failed: {inv} not violated under {cfg}: {r.error}")
     check.cov["sensitivity"] = (
@@ -503,11 +514,11 @@ def run(check: core.Check) -> None:
         "with Bug = any_matches (exclude_any ignored in the Impl model) EvalFollowsSpec is violated"
     )
     # S->C replay, adjudicated by TLC
-    limit = 30000 if quick else 300000
+    limit = 20000 if quick else 300000
     probes = [c for c in cases if _is_probe(c)]
     others = [c for c in cases if not _is_probe(c)]
-    exhaustive = len(cases) <= limit
-    if not exhaustive:  # sample whole evaluator functions (all their calls), seeded
+    exhaustive = len(cases) <= limit and not sampled
+    if len(cases) > limit:  # sample whole evaluator functions (all their calls), seeded
         groups: dict[str, list[dict]] = {}
         for c in others:
             groups.setdefault(_fkey(c), []).append(c)
@@ -523,17 +534,13 @@ def run(check: core.Check) -> None:
     check.cov["rule"] = (
         "cases = states with stage=done of TypeEval.tla (body x signature x call shape x argument types); all probe "
         "cases (every argument-kind primitive under every signature x call shape, every version/platform check) are "
-        "replayed, the other cases exhaustively up to the replay limit and as a seeded sample above it; non-trivial = "
+        "replayed; of the other cases TLC emits all (quick) or the evaluator bodies in one seeded residue class of a "
+        "structural hash (thorough: 1/16, 1/4), which are replayed up to the replay limit; non-trivial = "
         "a union-typed or Any argument, or a call with *args/**kwargs"
     )
     judge(check, probes + others, "tlc-exhaustive")
     # beyond the exhaustive bound: random simulation over the full grammar
-    num = 60 if quick else 1500  # behaviours; TLC evaluates EmitDone on every successor it generates
-    sim = core.require_ok(
-        core.run_tlc("TypeEvalEmit", "TypeEval.sim.cfg", workers=1 if quick else 4, simulate=f"num={num}", depth=16,
-                     seed=check.seed + 20, timeout=2400, extra_files=_cfg("TypeEval.sim.cfg")),
-        "TypeEval simulate",
-    )
+    sim = core.require_ok(by_cfg["TypeEval.sim.cfg"], "TypeEval simulate")
     check.add_tlc("simulate:TypeEval.sim.cfg", sim)
     suniq = {core.canon(c): c for c in core.emitted_json(sim)}
     check.cov["simulated_cases"] = len(suniq)
